@@ -353,4 +353,70 @@ theorem parseFloatSyntax_tot (hc : Rel c) (o : POpts) (isPartial : Bool) (input 
           | panic t => exact hN.elim
           | fault t => exact hN.elim
 
+/-! ## format validity gives `Rel` -/
+
+theorem skip_unreachable_iff (f : SepFlags) : f.skip = .unreachable ↔ f = ⟨false, false, false, true⟩ := by
+  obtain ⟨i, l, t, cc⟩ := f
+  cases i <;> cases l <;> cases t <;> cases cc <;> simp [SepFlags.skip]
+
+theorem ite_some_isNone {p : Prop} [Decidable p] {s : String} {x : Option String}
+    (h : (if p then some s else x).isNone = true) : ¬ p ∧ x.isNone = true := by
+  by_cases hp : p
+  · simp [hp] at h
+  · simp only [hp, if_false] at h; exact ⟨hp, h⟩
+
+theorem formatError_sep (feats : Features) (fmt : Format) (h : (formatError feats fmt).isNone = true)
+    (hf : feats.format = true) :
+    ¬ ((!fmt.bit 32 && !fmt.bit (32 + 3) && !fmt.bit (32 + 6) && fmt.bit (32 + 9)) = true) ∧
+    ¬ ((!fmt.bit 33 && !fmt.bit (33 + 3) && !fmt.bit (33 + 6) && fmt.bit (33 + 9)) = true) ∧
+    ¬ ((!fmt.bit 34 && !fmt.bit (34 + 3) && !fmt.bit (34 + 6) && fmt.bit (34 + 9)) = true) := by
+  unfold formatError at h
+  simp only [hf] at h
+  obtain ⟨-, h⟩ := ite_some_isNone h
+  obtain ⟨-, h⟩ := ite_some_isNone h
+  obtain ⟨-, h⟩ := ite_some_isNone h
+  obtain ⟨-, h⟩ := ite_some_isNone h
+  obtain ⟨-, h⟩ := ite_some_isNone h
+  obtain ⟨-, h⟩ := ite_some_isNone h
+  obtain ⟨-, h⟩ := ite_some_isNone h
+  simp only [Bool.not_true, Bool.false_eq_true, if_false] at h
+  obtain ⟨-, h⟩ := ite_some_isNone h
+  obtain ⟨-, h⟩ := ite_some_isNone h
+  obtain ⟨-, h⟩ := ite_some_isNone h
+  obtain ⟨-, h⟩ := ite_some_isNone h
+  obtain ⟨-, h⟩ := ite_some_isNone h
+  obtain ⟨h1, h⟩ := ite_some_isNone h
+  obtain ⟨h2, h⟩ := ite_some_isNone h
+  obtain ⟨h3, h⟩ := ite_some_isNone h
+  exact ⟨h1, h2, h3⟩
+
+/-- `format.is_valid()` excludes the `unreachable!()` arm of every `peek` -/
+theorem rel_of_valid (c : Cfg) (hd : c.debug = false) (h : (formatError c.feats c.fmt).isNone = true) : Rel c := by
+  refine ⟨hd, ?_⟩
+  intro k
+  cases hf : c.feats.format with
+  | false =>
+    cases k <;> simp [Cfg.skip, Cfg.sepFlags, Cfg.flag, Cfg.specialSep, hf, SepFlags.skip]
+  | true =>
+    obtain ⟨h1, h2, h3⟩ := formatError_sep c.feats c.fmt h hf
+    cases k with
+    | special => simp only [Cfg.skip]; split <;> simp
+    | integer =>
+      intro hk
+      simp only [Cfg.skip, skip_unreachable_iff, Cfg.sepFlags, Cfg.flag, hf, if_true, SepFlags.mk.injEq,
+        Format.integerInternalSep, Format.integerLeadingSep, Format.integerTrailingSep, Format.integerConsecutiveSep] at hk
+      apply h1
+      simp [hk.1, hk.2.1, hk.2.2.1, hk.2.2.2]
+    | fraction =>
+      intro hk
+      simp only [Cfg.skip, skip_unreachable_iff, Cfg.sepFlags, Cfg.flag, hf, if_true, SepFlags.mk.injEq,
+        Format.fractionInternalSep, Format.fractionLeadingSep, Format.fractionTrailingSep, Format.fractionConsecutiveSep] at hk
+      apply h2
+      simp [hk.1, hk.2.1, hk.2.2.1, hk.2.2.2]
+    | exponent =>
+      intro hk
+      simp only [Cfg.skip, skip_unreachable_iff, Cfg.sepFlags, Cfg.flag, hf, if_true, SepFlags.mk.injEq,
+        Format.exponentInternalSep, Format.exponentLeadingSep, Format.exponentTrailingSep, Format.exponentConsecutiveSep] at hk
+      apply h3
+      simp [hk.1, hk.2.1, hk.2.2.1, hk.2.2.2]
 end LexVerif.Proof.PNTotal
